@@ -43,3 +43,9 @@ Theorem C03_backend_ack_value : forall s h res c d dr,
         exists rh, fst t = VhostUserMsgHeader_write rh ++ u64_body (match res with ROk _ => 0 | RErr _ => 1 end)).
 Proof. exact ack_rule. Qed.
 Print Assumptions C03_backend_ack_value.
+
+(* the value of the backend's acknowledgement REGENERATED from send_ack_message: zero exactly for a successful handler *)
+From VV Require Import Gen.GenBeAck.
+Theorem C03_backend_ack_value_regenerated : forall ok, (ack_value ok =? 0) = ok.
+Proof. exact ack_value_spec. Qed.
+Print Assumptions C03_backend_ack_value_regenerated.
